@@ -85,6 +85,21 @@ def explore(ctx, depth):
     for a in (TC.CORE, TC.NOTE_REST, TC.DURATION, TC.DECORATION, TC.SIGNATURES, TC.BARLINES):
         add([a], None, None)
         add(None, [a], None)
+    # the sub-parts of notes under every encoding (the agnostic ones rebuild the pitch from its parts), singly and in pairs
+    parts = [TC.DURATION, TC.PITCH, TC.ALTERATION, TC.DECORATION, TC.REST]
+    for enc in ('kern', 'bkern', 'bekern', 'akern', 'aekern'):
+        for a in parts:
+            add(None, [a], enc)
+        for a in parts:
+            for b in parts:
+                if a.value < b.value:
+                    add(None, [a, b], enc)
+        add([TC.PITCH, TC.DURATION, TC.CHORD, TC.SIGNATURES, TC.STRUCTURAL], None, enc)
+        add([TC.NOTE_REST, TC.SIGNATURES, TC.STRUCTURAL, TC.BARLINES], [TC.ALTERATION], enc)
+    # an include that is given but empty selects nothing (it is not "no include"): every kind of empty collection, alone and with an exclude
+    for empty in ([], set(), ()):
+        combos.append({'enc': 'ekern', 'include': empty, 'exclude': None})
+        combos.append({'enc': None, 'include': empty, 'exclude': [TC.DECORATION]})
     nt = lambda case, combo, s: 0 < len(docrun.valid_idx(combo.get('include'), combo.get('exclude'))) < 37
     what = ('filtered export is not the unfiltered export with unselected sub-parts deleted, other unselected tokens replaced by placeholders '
             'and all-placeholder lines dropped')
